@@ -9,6 +9,7 @@ import (
 	"regexp"
 	"sort"
 	"strings"
+	"sync"
 
 	"golang.org/x/tools/go/packages"
 )
@@ -161,15 +162,17 @@ type GhostSpec struct {
 }
 
 type Program struct {
-	Fset     *token.FileSet
-	Pkgs     map[string]*packages.Package // by path
-	ByName   map[string]*packages.Package // by package name (repo packages)
-	Funcs    map[*types.Func]*FuncInfo
-	ByKey    map[string]*FuncInfo
-	SpecFile map[*ast.File]bool
-	decls    map[*types.Func]*ast.FuncDecl
-	declPkg  map[*types.Func]*packages.Package
-	Problems []string
+	paramVars map[types.Object]bool // parameters and receivers of all loaded functions (lazily, see isParamVar)
+	paramOnce sync.Once
+	Fset      *token.FileSet
+	Pkgs      map[string]*packages.Package // by path
+	ByName    map[string]*packages.Package // by package name (repo packages)
+	Funcs     map[*types.Func]*FuncInfo
+	ByKey     map[string]*FuncInfo
+	SpecFile  map[*ast.File]bool
+	decls     map[*types.Func]*ast.FuncDecl
+	declPkg   map[*types.Func]*packages.Package
+	Problems  []string
 	// TrustedPkg: assumption text -> package whose contract file introduced it (evidence lists only the relevant ones)
 	TrustedPkg map[string]string
 	Trusted    []string
